@@ -87,6 +87,14 @@ pub enum Act {
     Undef(Name, u8),
     UseI(Name, u8),
     UseD(Name, u8),
+    /// `.set` executed while another segment is selected or inside the body of an invoked macro
+    /// (0 = .dseg, 1 = .eseg, 2 = macro body): symbols know no segments, the effect is that of Set
+    SetIn(u8, i64),
+    /// `.def` / `.undef` while .dseg is selected (0) or inside an invoked macro body (1)
+    DefIn(u8, Name),
+    UndefIn(u8, Name),
+    /// use from EEPROM data: `.eseg / .db name / .cseg`
+    UseE(Name),
     /// a new code segment starts here (`.cseg` again, or `.org` to the current position):
     /// symbols are program-wide, so nothing changes for the model
     NewSegment(u8),
@@ -122,6 +130,22 @@ impl RefModel for SymModel {
         if !s.fresh_segment {
             v.push(Act::NewSegment(0));
             v.push(Act::NewSegment(1));
+        }
+        for ctx in 0..3u8 {
+            v.push(Act::SetIn(ctx, 6));
+            v.push(Act::SetIn(ctx, 2));
+        }
+        for ctx in 0..2u8 {
+            for d in [Name::DefA, Name::DefB] {
+                if s.defs.contains(&d) {
+                    v.push(Act::UndefIn(ctx, d));
+                } else {
+                    v.push(Act::DefIn(ctx, d));
+                }
+            }
+        }
+        for n in [Name::LabA, Name::EquA, Name::SetA] {
+            v.push(Act::UseE(n));
         }
         for c in 0..3u8 {
             v.push(Act::Label(Name::LabA, c));
@@ -172,7 +196,8 @@ impl RefModel for SymModel {
                 }
             }
         };
-        n.fresh_segment = matches!(a, Act::NewSegment(_));
+        // the wrappers of SetIn/DefIn/UndefIn/UseE end with `.cseg`: a new, empty code segment
+        n.fresh_segment = matches!(a, Act::NewSegment(_) | Act::SetIn(0, _) | Act::SetIn(1, _) | Act::DefIn(0, _) | Act::UndefIn(0, _) | Act::UseE(_));
         match a {
             Act::NewSegment(_) => {}
             Act::Label(l, _) => {
@@ -186,7 +211,14 @@ impl RefModel for SymModel {
                 n.equ = true;
                 n.pending.remove(&Name::EquA);
             }
-            Act::Set(v, _) => n.set = Some(*v),
+            Act::Set(v, _) | Act::SetIn(_, v) => n.set = Some(*v),
+            Act::DefIn(_, d) => {
+                n.defs.insert(*d);
+            }
+            Act::UndefIn(_, d) => {
+                n.defs.remove(d);
+            }
+            Act::UseE(name) => use_of(&mut n, *name),
             Act::SetInc(_) => match n.set {
                 Some(v) => n.set = Some(v + 1),
                 None => n.dead = true,
@@ -215,7 +247,8 @@ impl RefModel for SymModel {
 
 #[derive(Debug, Clone, PartialEq, Eq)]
 pub enum Expected {
-    Ok(Vec<u8>),
+    /// (flash image, EEPROM image)
+    Ok(Vec<u8>, Vec<u8>),
     Err(&'static str),
     /// the trace contains a construct the statement does not pin
     Unpinned,
@@ -249,6 +282,7 @@ pub fn expect(trace: &[Act]) -> Expected {
     let mut set: Option<i64> = None;
     let mut defs: BTreeSet<Name> = BTreeSet::new();
     let mut code: Vec<u8> = vec![];
+    let mut eeprom: Vec<u8> = vec![];
     let mut err: Option<&'static str> = if dup { Some("duplicate label") } else { None };
     for a in trace {
         let value = |n: Name, set: &Option<i64>| -> Result<i64, &'static str> {
@@ -269,17 +303,24 @@ pub fn expect(trace: &[Act]) -> Expected {
             Act::NewSegment(_) => {}
             Act::Label(..) => code.extend([0xa1, 0xaa]),
             Act::Equ(_) => {}
-            Act::Set(v, _) => set = Some(*v),
+            Act::Set(v, _) | Act::SetIn(_, v) => set = Some(*v),
             Act::SetInc(_) => match set {
                 Some(v) => set = Some(v + 1),
                 None => err = err.or(Some(".set variable used before its first assignment")),
             },
-            Act::Def(d, _) => {
+            Act::UseE(n) => match value(*n, &set) {
+                Ok(v) => eeprom.push(v as u8),
+                Err(e) => {
+                    err = err.or(Some(e));
+                    eeprom.push(0);
+                }
+            },
+            Act::Def(d, _) | Act::DefIn(_, d) => {
                 if !defs.insert(*d) {
                     return Expected::Unpinned;
                 }
             }
-            Act::Undef(d, _) => {
+            Act::Undef(d, _) | Act::UndefIn(_, d) => {
                 if !defs.remove(d) {
                     return Expected::Unpinned;
                 }
@@ -313,7 +354,7 @@ pub fn expect(trace: &[Act]) -> Expected {
     }
     match err {
         Some(e) => Expected::Err(e),
-        None => Expected::Ok(code),
+        None => Expected::Ok(code, eeprom),
     }
 }
 
@@ -326,6 +367,22 @@ pub fn render(trace: &[Act]) -> String {
             _ => {}
         }
         match a {
+            Act::SetIn(ctx, v) => {
+                let line = format!(".set {} = {}", spell(Name::SetA, (i % 3) as u8), v);
+                match ctx {
+                    0 => s.push_str(&format!(".dseg\n{}\n.cseg\n", line)),
+                    1 => s.push_str(&format!(".eseg\n{}\n.cseg\n", line)),
+                    _ => s.push_str(&format!(".macro setm_{}\n{}\n.endm\nsetm_{}\n", i, line, i)),
+                }
+            }
+            Act::DefIn(ctx, d) | Act::UndefIn(ctx, d) => {
+                let line = if let Act::DefIn(..) = a { format!(".def {} = r{}", spell(*d, (i % 3) as u8), d.reg()) } else { format!(".undef {}", spell(*d, (i % 3) as u8)) };
+                match ctx {
+                    0 => s.push_str(&format!(".dseg\n{}\n.cseg\n", line)),
+                    _ => s.push_str(&format!(".macro defm_{}\n{}\n.endm\ndefm_{}\n", i, line, i)),
+                }
+            }
+            Act::UseE(n) => s.push_str(&format!(".eseg\n.db {}\n.cseg\n", spell(*n, (i % 3) as u8))),
             Act::NewSegment(0) => s.push_str(".cseg\n"),
             // words counts the item of this line too, but NewSegment emits none
             Act::NewSegment(_) => s.push_str(&format!(".org {}\n", words)),
@@ -354,9 +411,24 @@ fn features(trace: &[Act]) -> String {
     let mut def_cases: BTreeMap<Name, BTreeSet<u8>> = BTreeMap::new();
     let mut case_differs = false;
     for a in trace {
-        if let Act::NewSegment(_) = a {
-            kinds.insert("new-segment");
-            continue;
+        match a {
+            Act::NewSegment(_) => {
+                kinds.insert("new-segment");
+                continue;
+            }
+            Act::SetIn(ctx, _) => {
+                kinds.insert(["set-in-dseg", "set-in-eseg", "set-in-macro"][*ctx as usize]);
+                continue;
+            }
+            Act::DefIn(ctx, _) | Act::UndefIn(ctx, _) => {
+                kinds.insert(["def-undef-in-dseg", "def-undef-in-macro"][*ctx as usize]);
+                continue;
+            }
+            Act::UseE(_) => {
+                kinds.insert("use-in-eeprom");
+                continue;
+            }
+            _ => {}
         }
         let (n, c) = match a {
             Act::Label(n, c) | Act::Def(n, c) | Act::Undef(n, c) | Act::UseI(n, c) | Act::UseD(n, c) => (*n, *c),
@@ -366,7 +438,7 @@ fn features(trace: &[Act]) -> String {
                 case_differs = true;
                 (Name::SetA, *c)
             }
-            Act::NewSegment(_) => continue,
+            _ => continue,
         };
         kinds.insert(n.kind());
         def_cases.entry(n).or_default().insert(c % 3);
@@ -389,7 +461,7 @@ pub fn sample_traces() -> Vec<Vec<Act>> {
 
 pub fn run(tier: Tier) -> i32 {
     let rep = Report::new("C10", tier, "model_checking");
-    let (n1, k) = if tier.thorough() { (5usize, 2usize) } else { (4usize, 2usize) };
+    let (n1, k) = if tier.thorough() { (4usize, 2usize) } else { (3usize, 2usize) };
     let m = SymModel;
     let ex = mc::explore(&m, n1);
     let n_ok = AtomicU64::new(0);
@@ -407,7 +479,7 @@ pub fn run(tier: Tier) -> i32 {
         let o = sut::build_str(&src);
         let mut bad: Option<(&str, String)> = None;
         match (&exp, &o) {
-            (Expected::Ok(code), Outcome::Ok(b)) => {
+            (Expected::Ok(code, eeprom), Outcome::Ok(b)) => {
                 n_ok.fetch_add(1, Ordering::Relaxed);
                 {
                     use std::hash::{Hash, Hasher};
@@ -417,9 +489,11 @@ pub fn run(tier: Tier) -> i32 {
                 }
                 if &b.code != code {
                     bad = Some(("wrong-value", format!("image {} but the binding rules give {}", sut::hex(&b.code), sut::hex(code))));
+                } else if &b.eeprom != eeprom {
+                    bad = Some(("wrong-value", format!("EEPROM image {} but the binding rules give {}", sut::hex(&b.eeprom), sut::hex(eeprom))));
                 }
             }
-            (Expected::Ok(code), Outcome::Err(e)) => {
+            (Expected::Ok(code, _), Outcome::Err(e)) => {
                 n_err.fetch_add(1, Ordering::Relaxed);
                 bad = Some(("rejected", format!("every reference resolves (expected image {}) but the build fails: {}", sut::hex(code), e)));
             }
@@ -437,7 +511,7 @@ pub fn run(tier: Tier) -> i32 {
             let key = format!("C10/{}/{}", kind, features(trace));
             rep.violation(&key, || format!("{} {:?}: {}", origin, trace, what), || {
                 json!({"kind": "build_str", "source": src, "trace": format!("{:?}", trace), "origin": origin,
-                       "expected": match &exp { Expected::Ok(c) => json!({"result":"ok","code": sut::hex(c)}), Expected::Err(w) => json!({"result":"err","because": w}), _ => json!(null) },
+                       "expected": match &exp { Expected::Ok(c, e) => json!({"result":"ok","code": sut::hex(c), "eeprom": sut::hex(e)}), Expected::Err(w) => json!({"result":"err","because": w}), _ => json!(null) },
                        "observed": o.to_json()})
             });
         } else if trace.len() >= 4 && origin == "trace" {
@@ -452,9 +526,9 @@ pub fn run(tier: Tier) -> i32 {
         check(trace, "trace");
         // E3: every single deletion of a defining line and every duplication of a label line of
         // a trace that builds
-        if let Expected::Ok(_) = expect(trace) {
+        if let Expected::Ok(..) = expect(trace) {
             for i in 0..trace.len() {
-                let defining = matches!(trace[i], Act::Label(..) | Act::Equ(_) | Act::Set(..) | Act::Def(..));
+                let defining = matches!(trace[i], Act::Label(..) | Act::Equ(_) | Act::Set(..) | Act::Def(..) | Act::SetIn(..) | Act::DefIn(..));
                 if defining {
                     let mut t = trace.to_vec();
                     t.remove(i);
@@ -487,7 +561,7 @@ pub fn run(tier: Tier) -> i32 {
         "traces_validated_against_impl": traces,
         "single_symbol_mutations_validated": n_mut.load(Ordering::Relaxed),
         "state_cover_size": ex.states,
-        "bound": {"N1_model_depth": n1, "k_extension": k, "alphabet": 68},
+        "bound": {"N1_model_depth": n1, "k_extension": k, "alphabet": 86},
         "exhaustive": true,
         "caps_hit": [],
         "distinct_observed_outcomes": distinct,
